@@ -174,6 +174,8 @@ const ALPHAS: [f64; 4] = [0.0, 0.01, 1.0, 100.0];
 const GTOL: f64 = 1e-4;
 /// "large": ten times the library default of 100 (healthy fits of these 1..12-parameter problems need < 300)
 const MAX_ITER: u64 = 1000;
+/// Tweedie problems have 1..3 parameters (healthy fits need < 100 iterations): three times the default
+const TW_MAX_ITER: usize = 300;
 
 fn main() {
     // child mode of the isolated Tweedie fit (see tweedie::fit_isolated)
@@ -204,10 +206,10 @@ fn main() {
          every fitted model is additionally queried on the training points, the origin and extreme points with |x.w| in {1,20,40,710,1000} (counted as prediction_queries).",
     );
     ctx.assume("documented objectives (rustdoc of logistic_loss / multi_logistic_loss / TweedieProblem::cost): binary -sum_i log sigm(y_i z_i) + alpha/2 w.w; multinomial -sum(Y*log softmax(XW+b)) + alpha/2 ||W||_F^2; Tweedie 1/2 (sum_i unit_deviance(y_i, mu_i) + alpha w.w) with the textbook unit deviance the comments in distribution.rs quote; sums not means; the intercept is never penalised");
-    ctx.assume("stationarity oracle: own f64 gradient norm at the returned parameters <= 10 x gradient_tolerance (1e-4; max_iterations 1000 = 10 x default) OR objective within 1e-8 * max(1,|J*|) of the own damped-Newton minimum (logistic: from zero, convex; Tweedie: Newton descent started at the returned point); a violation needs BOTH to fail");
+    ctx.assume("stationarity oracle: own f64 gradient norm at the returned parameters <= 10 x gradient_tolerance (1e-4; max_iterations 1000 = 10 x default for the logistic models, 300 = 3 x default for the 1..3-parameter Tweedie problems) OR objective within 1e-8 * max(1,|J*|) of the own damped-Newton minimum (logistic: from zero, convex; Tweedie: Newton descent started at the returned point); a violation needs BOTH to fail");
     ctx.assume("domain, alpha = 0: binary by an exact integer cone test (no non-zero (w,b) with y_i (x_i.w+b) >= 0 for all i; quasi-complete separation counts as separable because no finite maximiser exists); multinomial by an own Newton solve from zero that reaches gradient norm <= 1e-10*max|x| with all score spreads <= 15");
     ctx.assume("Tweedie domain: targets inside the support; the documented start (coef 0, intercept link(mean y)) has a finite objective; an own Newton solve from that start certifies an interior stationary point with |linear predictor| <= 30; everything else is counted out_of_domain");
-    ctx.assume("Tweedie identity link with power >= 1: the deviance is undefined for linear predictors <= 0, so an Err from the solver is accepted (counted); the fit runs in a child process (max_iter 1000) and must return within 3000 ms (healthy: < 50 ms), returned parameters must still be stationary; predictions of these models are not queried");
+    ctx.assume("Tweedie identity link with power >= 1: the deviance is undefined for linear predictors <= 0, so an Err from the solver is accepted (counted); the fit runs in a child process and must return within 2000 ms (longest returning child is in the evidence), returned parameters must still be stationary; predictions of these models are not queried");
     ctx.assume("probabilities: finite, in [0,1], equal to the own sigmoid / softmax of x.w+b within 1e-9, multinomial rows sum to 1 within 1e-9; decision: binary class must follow p > threshold outside a 1e-9 margin (inside: indeterminate), except that p bit-equal to the threshold must give the positive class ('minimum probability needed', rustdoc); multinomial: any class within 1e-9 of the row maximum is accepted");
     ctx.assume("which of the two classes is coded +1 is NOT demanded (rustdoc of label_classes says 'larger by PartialOrd', the existing test simple_example_1 pins 'more frequent, first seen on ties'): the oracle reads the coding from labels() and only demands the class SET; both rules are tallied in the evidence");
     ctx.assume("Tweedie predictions: range of the link is taken closed (exp may saturate to 0 / +inf at |x.w| ~ 1e3), values equal the own inverse link within 1e-9 relative");
@@ -405,7 +407,7 @@ fn main() {
                 for (fam, pts, y) in targets {
                     for &alpha in &tw_alphas {
                         for intercept in [true, false] {
-                            tcases.push(Case::Tweedie(TwCase { family: fam.to_string(), x: pts.clone(), y: y.clone(), power: p, link: link.to_string(), alpha, intercept, tol: GTOL, max_iter: MAX_ITER as usize }));
+                            tcases.push(Case::Tweedie(TwCase { family: fam.to_string(), x: pts.clone(), y: y.clone(), power: p, link: link.to_string(), alpha, intercept, tol: GTOL, max_iter: TW_MAX_ITER }));
                         }
                     }
                 }
@@ -425,7 +427,7 @@ fn main() {
                                 let mut y: Vec<f64> = (0..pts.len()).map(|i| if link == "logit" { 0.25 + 0.125 * i as f64 } else { 0.5 + i as f64 }).collect();
                                 y[pos] = bad;
                                 n_range += 1;
-                                tcases.push(Case::Tweedie(TwCase { family: fam.to_string(), x: pts.clone(), y, power: p, link: link.to_string(), alpha: 0.1, intercept, tol: GTOL, max_iter: MAX_ITER as usize }));
+                                tcases.push(Case::Tweedie(TwCase { family: fam.to_string(), x: pts.clone(), y, power: p, link: link.to_string(), alpha: 0.1, intercept, tol: GTOL, max_iter: TW_MAX_ITER }));
                             }
                         }
                     }
